@@ -1,0 +1,1658 @@
+	.file	"test_format.c"
+	.text
+.Ltext0:
+	.file 0 "/repo/aldor/aldor/src" "test/test_format.c"
+	.section	.rodata
+.LC0:
+	.string	"testFormat1"
+.LC1:
+	.string	"testFormat2"
+.LC2:
+	.string	"testFormat3"
+.LC3:
+	.string	"testFormat4"
+.LC4:
+	.string	"testFormat5"
+.LC5:
+	.string	"testFormat6"
+	.text
+	.globl	formatTest
+	.type	formatTest, @function
+formatTest:
+.LFB0:
+	.file 1 "test/test_format.c"
+	.loc 1 15 1
+	.cfi_startproc
+	pushq	%rbp
+	.cfi_def_cfa_offset 16
+	.cfi_offset 6, -16
+	movq	%rsp, %rbp
+	.cfi_def_cfa_register 6
+	.loc 1 16 2
+	leaq	testFormat1(%rip), %rax
+	movq	%rax, %rsi
+	leaq	.LC0(%rip), %rax
+	movq	%rax, %rdi
+	call	showTest@PLT
+	.loc 1 17 2
+	leaq	testFormat2(%rip), %rax
+	movq	%rax, %rsi
+	leaq	.LC1(%rip), %rax
+	movq	%rax, %rdi
+	call	showTest@PLT
+	.loc 1 18 2
+	leaq	testFormat3(%rip), %rax
+	movq	%rax, %rsi
+	leaq	.LC2(%rip), %rax
+	movq	%rax, %rdi
+	call	showTest@PLT
+	.loc 1 19 2
+	leaq	testFormat4(%rip), %rax
+	movq	%rax, %rsi
+	leaq	.LC3(%rip), %rax
+	movq	%rax, %rdi
+	call	showTest@PLT
+	.loc 1 20 2
+	leaq	testFormat5(%rip), %rax
+	movq	%rax, %rsi
+	leaq	.LC4(%rip), %rax
+	movq	%rax, %rdi
+	call	showTest@PLT
+	.loc 1 21 2
+	leaq	testFormat6(%rip), %rax
+	movq	%rax, %rsi
+	leaq	.LC5(%rip), %rax
+	movq	%rax, %rdi
+	call	showTest@PLT
+	.loc 1 22 1
+	nop
+	popq	%rbp
+	.cfi_def_cfa 7, 8
+	ret
+	.cfi_endproc
+.LFE0:
+	.size	formatTest, .-formatTest
+	.section	.rodata
+.LC6:
+	.string	"[%d]"
+	.text
+	.globl	displayInt
+	.type	displayInt, @function
+displayInt:
+.LFB1:
+	.loc 1 26 1
+	.cfi_startproc
+	pushq	%rbp
+	.cfi_def_cfa_offset 16
+	.cfi_offset 6, -16
+	movq	%rsp, %rbp
+	.cfi_def_cfa_register 6
+	subq	$16, %rsp
+	movq	%rdi, -8(%rbp)
+	movl	%esi, -12(%rbp)
+	.loc 1 27 9
+	movl	-12(%rbp), %edx
+	movq	-8(%rbp), %rax
+	leaq	.LC6(%rip), %rcx
+	movq	%rcx, %rsi
+	movq	%rax, %rdi
+	movl	$0, %eax
+	call	ostreamPrintf@PLT
+	.loc 1 28 1
+	leave
+	.cfi_def_cfa 7, 8
+	ret
+	.cfi_endproc
+.LFE1:
+	.size	displayInt, .-displayInt
+	.section	.rodata
+.LC7:
+	.string	"[%x]"
+	.text
+	.globl	displayPtr
+	.type	displayPtr, @function
+displayPtr:
+.LFB2:
+	.loc 1 32 1
+	.cfi_startproc
+	pushq	%rbp
+	.cfi_def_cfa_offset 16
+	.cfi_offset 6, -16
+	movq	%rsp, %rbp
+	.cfi_def_cfa_register 6
+	subq	$16, %rsp
+	movq	%rdi, -8(%rbp)
+	movq	%rsi, -16(%rbp)
+	.loc 1 33 9
+	movq	-16(%rbp), %rdx
+	movq	-8(%rbp), %rax
+	leaq	.LC7(%rip), %rcx
+	movq	%rcx, %rsi
+	movq	%rax, %rdi
+	movl	$0, %eax
+	call	ostreamPrintf@PLT
+	.loc 1 34 1
+	leave
+	.cfi_def_cfa 7, 8
+	ret
+	.cfi_endproc
+.LFE2:
+	.size	displayPtr, .-displayPtr
+	.section	.rodata
+.LC8:
+	.string	"x"
+.LC9:
+	.string	"Hello: %px"
+.LC10:
+	.string	"Hello: [0]"
+.LC11:
+	.string	"test1"
+	.text
+	.type	testFormat1, @function
+testFormat1:
+.LFB3:
+	.loc 1 38 1
+	.cfi_startproc
+	pushq	%rbp
+	.cfi_def_cfa_offset 16
+	.cfi_offset 6, -16
+	movq	%rsp, %rbp
+	.cfi_def_cfa_register 6
+	subq	$16, %rsp
+	.loc 1 40 2
+	leaq	displayPtr(%rip), %rax
+	movq	%rax, %rsi
+	leaq	.LC8(%rip), %rax
+	movq	%rax, %rdi
+	call	fmtRegister@PLT
+	.loc 1 41 6
+	movl	$0, %esi
+	leaq	.LC9(%rip), %rax
+	movq	%rax, %rdi
+	movl	$0, %eax
+	call	strPrintf@PLT
+	movq	%rax, -8(%rbp)
+	.loc 1 42 2
+	movq	-8(%rbp), %rax
+	movq	%rax, %rdx
+	leaq	.LC10(%rip), %rax
+	movq	%rax, %rsi
+	leaq	.LC11(%rip), %rax
+	movq	%rax, %rdi
+	call	testStringEqual@PLT
+	.loc 1 43 1
+	nop
+	leave
+	.cfi_def_cfa 7, 8
+	ret
+	.cfi_endproc
+.LFE3:
+	.size	testFormat1, .-testFormat1
+	.section	.rodata
+.LC12:
+	.string	"Hello: %pxBlah"
+.LC13:
+	.string	"Hello: [0]Blah"
+.LC14:
+	.string	"test2"
+	.text
+	.type	testFormat2, @function
+testFormat2:
+.LFB4:
+	.loc 1 47 1
+	.cfi_startproc
+	pushq	%rbp
+	.cfi_def_cfa_offset 16
+	.cfi_offset 6, -16
+	movq	%rsp, %rbp
+	.cfi_def_cfa_register 6
+	subq	$16, %rsp
+	.loc 1 49 2
+	leaq	displayPtr(%rip), %rax
+	movq	%rax, %rsi
+	leaq	.LC8(%rip), %rax
+	movq	%rax, %rdi
+	call	fmtRegister@PLT
+	.loc 1 50 6
+	movl	$0, %esi
+	leaq	.LC12(%rip), %rax
+	movq	%rax, %rdi
+	movl	$0, %eax
+	call	strPrintf@PLT
+	movq	%rax, -8(%rbp)
+	.loc 1 51 2
+	movq	-8(%rbp), %rax
+	movq	%rax, %rdx
+	leaq	.LC13(%rip), %rax
+	movq	%rax, %rsi
+	leaq	.LC14(%rip), %rax
+	movq	%rax, %rdi
+	call	testStringEqual@PLT
+	.loc 1 52 1
+	nop
+	leave
+	.cfi_def_cfa 7, 8
+	ret
+	.cfi_endproc
+.LFE4:
+	.size	testFormat2, .-testFormat2
+	.section	.rodata
+.LC15:
+	.string	"Hello: %pBlah"
+.LC16:
+	.string	"Hello: (nil)Blah"
+.LC17:
+	.string	"test3"
+	.text
+	.type	testFormat3, @function
+testFormat3:
+.LFB5:
+	.loc 1 56 1
+	.cfi_startproc
+	pushq	%rbp
+	.cfi_def_cfa_offset 16
+	.cfi_offset 6, -16
+	movq	%rsp, %rbp
+	.cfi_def_cfa_register 6
+	subq	$16, %rsp
+	.loc 1 57 13
+	movl	$0, %esi
+	leaq	.LC15(%rip), %rax
+	movq	%rax, %rdi
+	movl	$0, %eax
+	call	strPrintf@PLT
+	movq	%rax, -8(%rbp)
+	.loc 1 58 2
+	movq	-8(%rbp), %rax
+	movq	%rax, %rdx
+	leaq	.LC16(%rip), %rax
+	movq	%rax, %rsi
+	leaq	.LC17(%rip), %rax
+	movq	%rax, %rdi
+	call	testStringEqual@PLT
+	.loc 1 59 1
+	nop
+	leave
+	.cfi_def_cfa 7, 8
+	ret
+	.cfi_endproc
+.LFE5:
+	.size	testFormat3, .-testFormat3
+	.section	.rodata
+.LC18:
+	.string	"test4a"
+.LC19:
+	.string	"test4b"
+	.text
+	.type	testFormat4, @function
+testFormat4:
+.LFB6:
+	.loc 1 63 1
+	.cfi_startproc
+	pushq	%rbp
+	.cfi_def_cfa_offset 16
+	.cfi_offset 6, -16
+	movq	%rsp, %rbp
+	.cfi_def_cfa_register 6
+	subq	$32, %rsp
+	.loc 1 64 20
+	call	ostreamNewFrDevNull@PLT
+	movq	%rax, -8(%rbp)
+	.loc 1 65 8
+	leaq	.LC15(%rip), %rax
+	movq	%rax, -16(%rbp)
+	.loc 1 66 13
+	movq	-16(%rbp), %rax
+	movl	$0, %esi
+	movq	%rax, %rdi
+	movl	$0, %eax
+	call	strPrintf@PLT
+	movq	%rax, -24(%rbp)
+	.loc 1 67 10
+	movq	-16(%rbp), %rcx
+	movq	-8(%rbp), %rax
+	movl	$0, %edx
+	movq	%rcx, %rsi
+	movq	%rax, %rdi
+	movl	$0, %eax
+	call	ostreamPrintf@PLT
+	movl	%eax, -28(%rbp)
+	.loc 1 69 2
+	movq	-24(%rbp), %rax
+	movq	%rax, %rdx
+	leaq	.LC16(%rip), %rax
+	movq	%rax, %rsi
+	leaq	.LC18(%rip), %rax
+	movq	%rax, %rdi
+	call	testStringEqual@PLT
+	.loc 1 70 25
+	movq	-24(%rbp), %rax
+	movq	%rax, %rdi
+	call	strlen@PLT
+	.loc 1 70 2
+	movl	%eax, %ecx
+	movl	-28(%rbp), %eax
+	movl	%eax, %edx
+	movl	%ecx, %esi
+	leaq	.LC19(%rip), %rax
+	movq	%rax, %rdi
+	call	testIntEqual@PLT
+	.loc 1 71 1
+	nop
+	leave
+	.cfi_def_cfa 7, 8
+	ret
+	.cfi_endproc
+.LFE6:
+	.size	testFormat4, .-testFormat4
+	.section	.rodata
+.LC20:
+	.string	"z"
+.LC21:
+	.string	"Hello: %pz"
+.LC22:
+	.string	"Hello: (nil)"
+.LC23:
+	.string	"Hello: [1]"
+	.text
+	.type	testFormat5, @function
+testFormat5:
+.LFB7:
+	.loc 1 75 1
+	.cfi_startproc
+	pushq	%rbp
+	.cfi_def_cfa_offset 16
+	.cfi_offset 6, -16
+	movq	%rsp, %rbp
+	.cfi_def_cfa_register 6
+	subq	$16, %rsp
+	.loc 1 77 2
+	movl	$0, %edx
+	leaq	displayPtr(%rip), %rax
+	movq	%rax, %rsi
+	leaq	.LC20(%rip), %rax
+	movq	%rax, %rdi
+	call	fmtRegisterFull@PLT
+	.loc 1 78 6
+	movl	$0, %esi
+	leaq	.LC21(%rip), %rax
+	movq	%rax, %rdi
+	movl	$0, %eax
+	call	strPrintf@PLT
+	movq	%rax, -8(%rbp)
+	.loc 1 79 2
+	movq	-8(%rbp), %rax
+	movq	%rax, %rdx
+	leaq	.LC22(%rip), %rax
+	movq	%rax, %rsi
+	leaq	.LC14(%rip), %rax
+	movq	%rax, %rdi
+	call	testStringEqual@PLT
+	.loc 1 81 6
+	movl	$1, %esi
+	leaq	.LC21(%rip), %rax
+	movq	%rax, %rdi
+	movl	$0, %eax
+	call	strPrintf@PLT
+	movq	%rax, -8(%rbp)
+	.loc 1 82 2
+	movq	-8(%rbp), %rax
+	movq	%rax, %rdx
+	leaq	.LC23(%rip), %rax
+	movq	%rax, %rsi
+	leaq	.LC14(%rip), %rax
+	movq	%rax, %rdi
+	call	testStringEqual@PLT
+	.loc 1 83 1
+	nop
+	leave
+	.cfi_def_cfa 7, 8
+	ret
+	.cfi_endproc
+.LFE7:
+	.size	testFormat5, .-testFormat5
+	.section	.rodata
+.LC24:
+	.string	"i"
+.LC25:
+	.string	"Hello: %oi %d"
+.LC26:
+	.string	"Hello: [0] 999"
+.LC27:
+	.string	"Hello: %oi"
+.LC28:
+	.string	"Hello: [-1]"
+	.text
+	.type	testFormat6, @function
+testFormat6:
+.LFB8:
+	.loc 1 87 1
+	.cfi_startproc
+	pushq	%rbp
+	.cfi_def_cfa_offset 16
+	.cfi_offset 6, -16
+	movq	%rsp, %rbp
+	.cfi_def_cfa_register 6
+	subq	$16, %rsp
+	.loc 1 89 2
+	leaq	displayInt(%rip), %rax
+	movq	%rax, %rsi
+	leaq	.LC24(%rip), %rax
+	movq	%rax, %rdi
+	call	fmtRegisterI@PLT
+	.loc 1 91 6
+	movl	$999, %edx
+	movl	$0, %esi
+	leaq	.LC25(%rip), %rax
+	movq	%rax, %rdi
+	movl	$0, %eax
+	call	strPrintf@PLT
+	movq	%rax, -8(%rbp)
+	.loc 1 92 2
+	movq	-8(%rbp), %rax
+	movq	%rax, %rdx
+	leaq	.LC26(%rip), %rax
+	movq	%rax, %rsi
+	leaq	.LC14(%rip), %rax
+	movq	%rax, %rdi
+	call	testStringEqual@PLT
+	.loc 1 94 6
+	movl	$1, %esi
+	leaq	.LC27(%rip), %rax
+	movq	%rax, %rdi
+	movl	$0, %eax
+	call	strPrintf@PLT
+	movq	%rax, -8(%rbp)
+	.loc 1 95 2
+	movq	-8(%rbp), %rax
+	movq	%rax, %rdx
+	leaq	.LC23(%rip), %rax
+	movq	%rax, %rsi
+	leaq	.LC14(%rip), %rax
+	movq	%rax, %rdi
+	call	testStringEqual@PLT
+	.loc 1 97 6
+	movl	$-1, %esi
+	leaq	.LC27(%rip), %rax
+	movq	%rax, %rdi
+	movl	$0, %eax
+	call	strPrintf@PLT
+	movq	%rax, -8(%rbp)
+	.loc 1 98 2
+	movq	-8(%rbp), %rax
+	movq	%rax, %rdx
+	leaq	.LC28(%rip), %rax
+	movq	%rax, %rsi
+	leaq	.LC14(%rip), %rax
+	movq	%rax, %rdi
+	call	testStringEqual@PLT
+	.loc 1 99 1
+	nop
+	leave
+	.cfi_def_cfa 7, 8
+	ret
+	.cfi_endproc
+.LFE8:
+	.size	testFormat6, .-testFormat6
+.Letext0:
+	.file 2 "/usr/lib/gcc/x86_64-linux-gnu/12/include/stddef.h"
+	.file 3 "./cport.h"
+	.file 4 "./ostream.h"
+	.file 5 "./format.h"
+	.file 6 "test/testlib.h"
+	.file 7 "/usr/include/string.h"
+	.file 8 "./strops.h"
+	.section	.debug_info,"",@progbits
+.Ldebug_info0:
+	.long	0x4dd
+	.value	0x5
+	.byte	0x1
+	.byte	0x8
+	.long	.Ldebug_abbrev0
+	.uleb128 0x13
+	.long	.LASF49
+	.byte	0xc
+	.long	.LASF0
+	.long	.LASF1
+	.quad	.Ltext0
+	.quad	.Letext0-.Ltext0
+	.long	.Ldebug_line0
+	.uleb128 0x14
+	.byte	0x4
+	.byte	0x5
+	.string	"int"
+	.uleb128 0x2
+	.byte	0x1
+	.byte	0x8
+	.long	.LASF2
+	.uleb128 0x2
+	.byte	0x2
+	.byte	0x7
+	.long	.LASF3
+	.uleb128 0x2
+	.byte	0x4
+	.byte	0x7
+	.long	.LASF4
+	.uleb128 0x2
+	.byte	0x8
+	.byte	0x7
+	.long	.LASF5
+	.uleb128 0x2
+	.byte	0x1
+	.byte	0x6
+	.long	.LASF6
+	.uleb128 0x2
+	.byte	0x2
+	.byte	0x5
+	.long	.LASF7
+	.uleb128 0x2
+	.byte	0x8
+	.byte	0x5
+	.long	.LASF8
+	.uleb128 0x15
+	.byte	0x8
+	.uleb128 0x3
+	.long	0x6d
+	.uleb128 0x2
+	.byte	0x1
+	.byte	0x6
+	.long	.LASF9
+	.uleb128 0x16
+	.long	0x6d
+	.uleb128 0x2
+	.byte	0x4
+	.byte	0x4
+	.long	.LASF10
+	.uleb128 0x2
+	.byte	0x8
+	.byte	0x4
+	.long	.LASF11
+	.uleb128 0x4
+	.long	.LASF13
+	.byte	0x2
+	.byte	0xd6
+	.byte	0x1b
+	.long	0x4a
+	.uleb128 0x2
+	.byte	0x8
+	.byte	0x5
+	.long	.LASF12
+	.uleb128 0x3
+	.long	0x74
+	.uleb128 0x8
+	.long	.LASF14
+	.value	0x156
+	.byte	0xd
+	.long	0x2e
+	.uleb128 0x8
+	.long	.LASF15
+	.value	0x166
+	.byte	0x12
+	.long	0x66
+	.uleb128 0x8
+	.long	.LASF16
+	.value	0x16a
+	.byte	0xf
+	.long	0x68
+	.uleb128 0x8
+	.long	.LASF17
+	.value	0x16b
+	.byte	0x15
+	.long	0x9a
+	.uleb128 0x4
+	.long	.LASF18
+	.byte	0x4
+	.byte	0x7
+	.byte	0xf
+	.long	0xdb
+	.uleb128 0x3
+	.long	0xe0
+	.uleb128 0x9
+	.long	0x2e
+	.long	0xf4
+	.uleb128 0x1
+	.long	0xc3
+	.uleb128 0x1
+	.long	0x2e
+	.byte	0
+	.uleb128 0x4
+	.long	.LASF19
+	.byte	0x4
+	.byte	0x9
+	.byte	0x19
+	.long	0x100
+	.uleb128 0x3
+	.long	0x105
+	.uleb128 0xb
+	.long	.LASF24
+	.byte	0x10
+	.byte	0x15
+	.byte	0x8
+	.long	0x12b
+	.uleb128 0x17
+	.string	"ops"
+	.byte	0x4
+	.byte	0x16
+	.byte	0xd
+	.long	0x1c3
+	.byte	0
+	.uleb128 0xa
+	.long	.LASF20
+	.byte	0x1a
+	.byte	0x4
+	.long	0x1d4
+	.byte	0x8
+	.byte	0
+	.uleb128 0x4
+	.long	.LASF21
+	.byte	0x4
+	.byte	0xb
+	.byte	0xe
+	.long	0x137
+	.uleb128 0xc
+	.long	0x147
+	.uleb128 0x1
+	.long	0xf4
+	.uleb128 0x1
+	.long	0x6d
+	.byte	0
+	.uleb128 0x4
+	.long	.LASF22
+	.byte	0x4
+	.byte	0xc
+	.byte	0xd
+	.long	0x153
+	.uleb128 0x9
+	.long	0x2e
+	.long	0x16c
+	.uleb128 0x1
+	.long	0xf4
+	.uleb128 0x1
+	.long	0x9a
+	.uleb128 0x1
+	.long	0x2e
+	.byte	0
+	.uleb128 0x4
+	.long	.LASF23
+	.byte	0x4
+	.byte	0xd
+	.byte	0xe
+	.long	0x178
+	.uleb128 0xc
+	.long	0x183
+	.uleb128 0x1
+	.long	0xf4
+	.byte	0
+	.uleb128 0xb
+	.long	.LASF25
+	.byte	0x18
+	.byte	0xf
+	.byte	0x10
+	.long	0x1b4
+	.uleb128 0xa
+	.long	.LASF26
+	.byte	0x10
+	.byte	0x12
+	.long	0x1b4
+	.byte	0
+	.uleb128 0xa
+	.long	.LASF27
+	.byte	0x11
+	.byte	0x14
+	.long	0x1b9
+	.byte	0x8
+	.uleb128 0xa
+	.long	.LASF28
+	.byte	0x12
+	.byte	0xe
+	.long	0x1be
+	.byte	0x10
+	.byte	0
+	.uleb128 0x3
+	.long	0x12b
+	.uleb128 0x3
+	.long	0x147
+	.uleb128 0x3
+	.long	0x16c
+	.uleb128 0x4
+	.long	.LASF29
+	.byte	0x4
+	.byte	0x13
+	.byte	0x4
+	.long	0x1cf
+	.uleb128 0x3
+	.long	0x183
+	.uleb128 0x18
+	.byte	0x8
+	.byte	0x4
+	.byte	0x17
+	.byte	0x2
+	.long	0x1f4
+	.uleb128 0xd
+	.string	"obj"
+	.byte	0x18
+	.byte	0xb
+	.long	0xab
+	.uleb128 0xd
+	.string	"fun"
+	.byte	0x19
+	.byte	0x11
+	.long	0xcf
+	.byte	0
+	.uleb128 0x4
+	.long	.LASF30
+	.byte	0x5
+	.byte	0x2e
+	.byte	0xf
+	.long	0x200
+	.uleb128 0x3
+	.long	0x205
+	.uleb128 0x9
+	.long	0x2e
+	.long	0x219
+	.uleb128 0x1
+	.long	0xf4
+	.uleb128 0x1
+	.long	0xab
+	.byte	0
+	.uleb128 0x4
+	.long	.LASF31
+	.byte	0x5
+	.byte	0x2f
+	.byte	0xf
+	.long	0x225
+	.uleb128 0x3
+	.long	0x22a
+	.uleb128 0x9
+	.long	0x2e
+	.long	0x23e
+	.uleb128 0x1
+	.long	0xf4
+	.uleb128 0x1
+	.long	0x2e
+	.byte	0
+	.uleb128 0x6
+	.long	.LASF32
+	.byte	0x5
+	.byte	0x3a
+	.byte	0xd
+	.long	0x255
+	.uleb128 0x1
+	.long	0x9a
+	.uleb128 0x1
+	.long	0x219
+	.byte	0
+	.uleb128 0x6
+	.long	.LASF33
+	.byte	0x5
+	.byte	0x3b
+	.byte	0xd
+	.long	0x271
+	.uleb128 0x1
+	.long	0x9a
+	.uleb128 0x1
+	.long	0x1f4
+	.uleb128 0x1
+	.long	0x9f
+	.byte	0
+	.uleb128 0x6
+	.long	.LASF34
+	.byte	0x6
+	.byte	0x8
+	.byte	0x6
+	.long	0x28d
+	.uleb128 0x1
+	.long	0xb7
+	.uleb128 0x1
+	.long	0x2e
+	.uleb128 0x1
+	.long	0x2e
+	.byte	0
+	.uleb128 0x19
+	.long	.LASF36
+	.byte	0x7
+	.value	0x197
+	.byte	0xf
+	.long	0x87
+	.long	0x2a4
+	.uleb128 0x1
+	.long	0x9a
+	.byte	0
+	.uleb128 0x1a
+	.long	.LASF50
+	.byte	0x4
+	.byte	0x21
+	.byte	0x10
+	.long	0xf4
+	.uleb128 0x6
+	.long	.LASF35
+	.byte	0x6
+	.byte	0x6
+	.byte	0x6
+	.long	0x2cc
+	.uleb128 0x1
+	.long	0xb7
+	.uleb128 0x1
+	.long	0xb7
+	.uleb128 0x1
+	.long	0xb7
+	.byte	0
+	.uleb128 0xe
+	.long	.LASF37
+	.byte	0x8
+	.byte	0x31
+	.byte	0xf
+	.long	0xb7
+	.long	0x2e3
+	.uleb128 0x1
+	.long	0x9a
+	.uleb128 0xf
+	.byte	0
+	.uleb128 0x6
+	.long	.LASF38
+	.byte	0x5
+	.byte	0x39
+	.byte	0xd
+	.long	0x2fa
+	.uleb128 0x1
+	.long	0x9a
+	.uleb128 0x1
+	.long	0x1f4
+	.byte	0
+	.uleb128 0xe
+	.long	.LASF39
+	.byte	0x5
+	.byte	0x2b
+	.byte	0xc
+	.long	0x2e
+	.long	0x316
+	.uleb128 0x1
+	.long	0xf4
+	.uleb128 0x1
+	.long	0x9a
+	.uleb128 0xf
+	.byte	0
+	.uleb128 0x6
+	.long	.LASF40
+	.byte	0x6
+	.byte	0x15
+	.byte	0x6
+	.long	0x32d
+	.uleb128 0x1
+	.long	0x68
+	.uleb128 0x1
+	.long	0x32d
+	.byte	0
+	.uleb128 0x3
+	.long	0x332
+	.uleb128 0x1b
+	.uleb128 0x7
+	.long	.LASF41
+	.byte	0x56
+	.quad	.LFB8
+	.quad	.LFE8-.LFB8
+	.uleb128 0x1
+	.byte	0x9c
+	.long	0x35c
+	.uleb128 0x5
+	.string	"s"
+	.byte	0x58
+	.byte	0x8
+	.long	0x68
+	.uleb128 0x2
+	.byte	0x91
+	.sleb128 -24
+	.byte	0
+	.uleb128 0x7
+	.long	.LASF42
+	.byte	0x4a
+	.quad	.LFB7
+	.quad	.LFE7-.LFB7
+	.uleb128 0x1
+	.byte	0x9c
+	.long	0x385
+	.uleb128 0x5
+	.string	"s"
+	.byte	0x4c
+	.byte	0x9
+	.long	0xb7
+	.uleb128 0x2
+	.byte	0x91
+	.sleb128 -24
+	.byte	0
+	.uleb128 0x7
+	.long	.LASF43
+	.byte	0x3e
+	.quad	.LFB6
+	.quad	.LFE6-.LFB6
+	.uleb128 0x1
+	.byte	0x9c
+	.long	0x3d7
+	.uleb128 0x1c
+	.long	.LASF24
+	.byte	0x1
+	.byte	0x40
+	.byte	0xa
+	.long	0xf4
+	.uleb128 0x2
+	.byte	0x91
+	.sleb128 -24
+	.uleb128 0x5
+	.string	"fmt"
+	.byte	0x41
+	.byte	0x8
+	.long	0x68
+	.uleb128 0x2
+	.byte	0x91
+	.sleb128 -32
+	.uleb128 0x5
+	.string	"s"
+	.byte	0x42
+	.byte	0x9
+	.long	0xb7
+	.uleb128 0x2
+	.byte	0x91
+	.sleb128 -40
+	.uleb128 0x5
+	.string	"c"
+	.byte	0x43
+	.byte	0x6
+	.long	0x2e
+	.uleb128 0x2
+	.byte	0x91
+	.sleb128 -44
+	.byte	0
+	.uleb128 0x7
+	.long	.LASF44
+	.byte	0x37
+	.quad	.LFB5
+	.quad	.LFE5-.LFB5
+	.uleb128 0x1
+	.byte	0x9c
+	.long	0x400
+	.uleb128 0x5
+	.string	"s"
+	.byte	0x39
+	.byte	0x9
+	.long	0xb7
+	.uleb128 0x2
+	.byte	0x91
+	.sleb128 -24
+	.byte	0
+	.uleb128 0x7
+	.long	.LASF45
+	.byte	0x2e
+	.quad	.LFB4
+	.quad	.LFE4-.LFB4
+	.uleb128 0x1
+	.byte	0x9c
+	.long	0x429
+	.uleb128 0x5
+	.string	"s"
+	.byte	0x30
+	.byte	0x9
+	.long	0xb7
+	.uleb128 0x2
+	.byte	0x91
+	.sleb128 -24
+	.byte	0
+	.uleb128 0x7
+	.long	.LASF46
+	.byte	0x25
+	.quad	.LFB3
+	.quad	.LFE3-.LFB3
+	.uleb128 0x1
+	.byte	0x9c
+	.long	0x452
+	.uleb128 0x5
+	.string	"s"
+	.byte	0x27
+	.byte	0x9
+	.long	0xb7
+	.uleb128 0x2
+	.byte	0x91
+	.sleb128 -24
+	.byte	0
+	.uleb128 0x10
+	.long	.LASF47
+	.byte	0x1f
+	.long	0x2e
+	.quad	.LFB2
+	.quad	.LFE2-.LFB2
+	.uleb128 0x1
+	.byte	0x9c
+	.long	0x48c
+	.uleb128 0x11
+	.long	.LASF24
+	.byte	0x1f
+	.long	0xf4
+	.uleb128 0x2
+	.byte	0x91
+	.sleb128 -24
+	.uleb128 0x12
+	.string	"p"
+	.byte	0x1f
+	.byte	0x25
+	.long	0xab
+	.uleb128 0x2
+	.byte	0x91
+	.sleb128 -32
+	.byte	0
+	.uleb128 0x10
+	.long	.LASF48
+	.byte	0x19
+	.long	0x2e
+	.quad	.LFB1
+	.quad	.LFE1-.LFB1
+	.uleb128 0x1
+	.byte	0x9c
+	.long	0x4c6
+	.uleb128 0x11
+	.long	.LASF24
+	.byte	0x19
+	.long	0xf4
+	.uleb128 0x2
+	.byte	0x91
+	.sleb128 -24
+	.uleb128 0x12
+	.string	"n"
+	.byte	0x19
+	.byte	0x21
+	.long	0x2e
+	.uleb128 0x2
+	.byte	0x91
+	.sleb128 -28
+	.byte	0
+	.uleb128 0x1d
+	.long	.LASF51
+	.byte	0x1
+	.byte	0xe
+	.byte	0x1
+	.quad	.LFB0
+	.quad	.LFE0-.LFB0
+	.uleb128 0x1
+	.byte	0x9c
+	.byte	0
+	.section	.debug_abbrev,"",@progbits
+.Ldebug_abbrev0:
+	.uleb128 0x1
+	.uleb128 0x5
+	.byte	0
+	.uleb128 0x49
+	.uleb128 0x13
+	.byte	0
+	.byte	0
+	.uleb128 0x2
+	.uleb128 0x24
+	.byte	0
+	.uleb128 0xb
+	.uleb128 0xb
+	.uleb128 0x3e
+	.uleb128 0xb
+	.uleb128 0x3
+	.uleb128 0xe
+	.byte	0
+	.byte	0
+	.uleb128 0x3
+	.uleb128 0xf
+	.byte	0
+	.uleb128 0xb
+	.uleb128 0x21
+	.sleb128 8
+	.uleb128 0x49
+	.uleb128 0x13
+	.byte	0
+	.byte	0
+	.uleb128 0x4
+	.uleb128 0x16
+	.byte	0
+	.uleb128 0x3
+	.uleb128 0xe
+	.uleb128 0x3a
+	.uleb128 0xb
+	.uleb128 0x3b
+	.uleb128 0xb
+	.uleb128 0x39
+	.uleb128 0xb
+	.uleb128 0x49
+	.uleb128 0x13
+	.byte	0
+	.byte	0
+	.uleb128 0x5
+	.uleb128 0x34
+	.byte	0
+	.uleb128 0x3
+	.uleb128 0x8
+	.uleb128 0x3a
+	.uleb128 0x21
+	.sleb128 1
+	.uleb128 0x3b
+	.uleb128 0xb
+	.uleb128 0x39
+	.uleb128 0xb
+	.uleb128 0x49
+	.uleb128 0x13
+	.uleb128 0x2
+	.uleb128 0x18
+	.byte	0
+	.byte	0
+	.uleb128 0x6
+	.uleb128 0x2e
+	.byte	0x1
+	.uleb128 0x3f
+	.uleb128 0x19
+	.uleb128 0x3
+	.uleb128 0xe
+	.uleb128 0x3a
+	.uleb128 0xb
+	.uleb128 0x3b
+	.uleb128 0xb
+	.uleb128 0x39
+	.uleb128 0xb
+	.uleb128 0x27
+	.uleb128 0x19
+	.uleb128 0x3c
+	.uleb128 0x19
+	.uleb128 0x1
+	.uleb128 0x13
+	.byte	0
+	.byte	0
+	.uleb128 0x7
+	.uleb128 0x2e
+	.byte	0x1
+	.uleb128 0x3
+	.uleb128 0xe
+	.uleb128 0x3a
+	.uleb128 0x21
+	.sleb128 1
+	.uleb128 0x3b
+	.uleb128 0xb
+	.uleb128 0x39
+	.uleb128 0x21
+	.sleb128 1
+	.uleb128 0x11
+	.uleb128 0x1
+	.uleb128 0x12
+	.uleb128 0x7
+	.uleb128 0x40
+	.uleb128 0x18
+	.uleb128 0x7c
+	.uleb128 0x19
+	.uleb128 0x1
+	.uleb128 0x13
+	.byte	0
+	.byte	0
+	.uleb128 0x8
+	.uleb128 0x16
+	.byte	0
+	.uleb128 0x3
+	.uleb128 0xe
+	.uleb128 0x3a
+	.uleb128 0x21
+	.sleb128 3
+	.uleb128 0x3b
+	.uleb128 0x5
+	.uleb128 0x39
+	.uleb128 0xb
+	.uleb128 0x49
+	.uleb128 0x13
+	.byte	0
+	.byte	0
+	.uleb128 0x9
+	.uleb128 0x15
+	.byte	0x1
+	.uleb128 0x27
+	.uleb128 0x19
+	.uleb128 0x49
+	.uleb128 0x13
+	.uleb128 0x1
+	.uleb128 0x13
+	.byte	0
+	.byte	0
+	.uleb128 0xa
+	.uleb128 0xd
+	.byte	0
+	.uleb128 0x3
+	.uleb128 0xe
+	.uleb128 0x3a
+	.uleb128 0x21
+	.sleb128 4
+	.uleb128 0x3b
+	.uleb128 0xb
+	.uleb128 0x39
+	.uleb128 0xb
+	.uleb128 0x49
+	.uleb128 0x13
+	.uleb128 0x38
+	.uleb128 0xb
+	.byte	0
+	.byte	0
+	.uleb128 0xb
+	.uleb128 0x13
+	.byte	0x1
+	.uleb128 0x3
+	.uleb128 0xe
+	.uleb128 0xb
+	.uleb128 0xb
+	.uleb128 0x3a
+	.uleb128 0x21
+	.sleb128 4
+	.uleb128 0x3b
+	.uleb128 0xb
+	.uleb128 0x39
+	.uleb128 0xb
+	.uleb128 0x1
+	.uleb128 0x13
+	.byte	0
+	.byte	0
+	.uleb128 0xc
+	.uleb128 0x15
+	.byte	0x1
+	.uleb128 0x27
+	.uleb128 0x19
+	.uleb128 0x1
+	.uleb128 0x13
+	.byte	0
+	.byte	0
+	.uleb128 0xd
+	.uleb128 0xd
+	.byte	0
+	.uleb128 0x3
+	.uleb128 0x8
+	.uleb128 0x3a
+	.uleb128 0x21
+	.sleb128 4
+	.uleb128 0x3b
+	.uleb128 0xb
+	.uleb128 0x39
+	.uleb128 0xb
+	.uleb128 0x49
+	.uleb128 0x13
+	.byte	0
+	.byte	0
+	.uleb128 0xe
+	.uleb128 0x2e
+	.byte	0x1
+	.uleb128 0x3f
+	.uleb128 0x19
+	.uleb128 0x3
+	.uleb128 0xe
+	.uleb128 0x3a
+	.uleb128 0xb
+	.uleb128 0x3b
+	.uleb128 0xb
+	.uleb128 0x39
+	.uleb128 0xb
+	.uleb128 0x27
+	.uleb128 0x19
+	.uleb128 0x49
+	.uleb128 0x13
+	.uleb128 0x3c
+	.uleb128 0x19
+	.uleb128 0x1
+	.uleb128 0x13
+	.byte	0
+	.byte	0
+	.uleb128 0xf
+	.uleb128 0x18
+	.byte	0
+	.byte	0
+	.byte	0
+	.uleb128 0x10
+	.uleb128 0x2e
+	.byte	0x1
+	.uleb128 0x3f
+	.uleb128 0x19
+	.uleb128 0x3
+	.uleb128 0xe
+	.uleb128 0x3a
+	.uleb128 0x21
+	.sleb128 1
+	.uleb128 0x3b
+	.uleb128 0xb
+	.uleb128 0x39
+	.uleb128 0x21
+	.sleb128 1
+	.uleb128 0x27
+	.uleb128 0x19
+	.uleb128 0x49
+	.uleb128 0x13
+	.uleb128 0x11
+	.uleb128 0x1
+	.uleb128 0x12
+	.uleb128 0x7
+	.uleb128 0x40
+	.uleb128 0x18
+	.uleb128 0x7c
+	.uleb128 0x19
+	.uleb128 0x1
+	.uleb128 0x13
+	.byte	0
+	.byte	0
+	.uleb128 0x11
+	.uleb128 0x5
+	.byte	0
+	.uleb128 0x3
+	.uleb128 0xe
+	.uleb128 0x3a
+	.uleb128 0x21
+	.sleb128 1
+	.uleb128 0x3b
+	.uleb128 0xb
+	.uleb128 0x39
+	.uleb128 0x21
+	.sleb128 20
+	.uleb128 0x49
+	.uleb128 0x13
+	.uleb128 0x2
+	.uleb128 0x18
+	.byte	0
+	.byte	0
+	.uleb128 0x12
+	.uleb128 0x5
+	.byte	0
+	.uleb128 0x3
+	.uleb128 0x8
+	.uleb128 0x3a
+	.uleb128 0x21
+	.sleb128 1
+	.uleb128 0x3b
+	.uleb128 0xb
+	.uleb128 0x39
+	.uleb128 0xb
+	.uleb128 0x49
+	.uleb128 0x13
+	.uleb128 0x2
+	.uleb128 0x18
+	.byte	0
+	.byte	0
+	.uleb128 0x13
+	.uleb128 0x11
+	.byte	0x1
+	.uleb128 0x25
+	.uleb128 0xe
+	.uleb128 0x13
+	.uleb128 0xb
+	.uleb128 0x3
+	.uleb128 0x1f
+	.uleb128 0x1b
+	.uleb128 0x1f
+	.uleb128 0x11
+	.uleb128 0x1
+	.uleb128 0x12
+	.uleb128 0x7
+	.uleb128 0x10
+	.uleb128 0x17
+	.byte	0
+	.byte	0
+	.uleb128 0x14
+	.uleb128 0x24
+	.byte	0
+	.uleb128 0xb
+	.uleb128 0xb
+	.uleb128 0x3e
+	.uleb128 0xb
+	.uleb128 0x3
+	.uleb128 0x8
+	.byte	0
+	.byte	0
+	.uleb128 0x15
+	.uleb128 0xf
+	.byte	0
+	.uleb128 0xb
+	.uleb128 0xb
+	.byte	0
+	.byte	0
+	.uleb128 0x16
+	.uleb128 0x26
+	.byte	0
+	.uleb128 0x49
+	.uleb128 0x13
+	.byte	0
+	.byte	0
+	.uleb128 0x17
+	.uleb128 0xd
+	.byte	0
+	.uleb128 0x3
+	.uleb128 0x8
+	.uleb128 0x3a
+	.uleb128 0xb
+	.uleb128 0x3b
+	.uleb128 0xb
+	.uleb128 0x39
+	.uleb128 0xb
+	.uleb128 0x49
+	.uleb128 0x13
+	.uleb128 0x38
+	.uleb128 0xb
+	.byte	0
+	.byte	0
+	.uleb128 0x18
+	.uleb128 0x17
+	.byte	0x1
+	.uleb128 0xb
+	.uleb128 0xb
+	.uleb128 0x3a
+	.uleb128 0xb
+	.uleb128 0x3b
+	.uleb128 0xb
+	.uleb128 0x39
+	.uleb128 0xb
+	.uleb128 0x1
+	.uleb128 0x13
+	.byte	0
+	.byte	0
+	.uleb128 0x19
+	.uleb128 0x2e
+	.byte	0x1
+	.uleb128 0x3f
+	.uleb128 0x19
+	.uleb128 0x3
+	.uleb128 0xe
+	.uleb128 0x3a
+	.uleb128 0xb
+	.uleb128 0x3b
+	.uleb128 0x5
+	.uleb128 0x39
+	.uleb128 0xb
+	.uleb128 0x27
+	.uleb128 0x19
+	.uleb128 0x49
+	.uleb128 0x13
+	.uleb128 0x3c
+	.uleb128 0x19
+	.uleb128 0x1
+	.uleb128 0x13
+	.byte	0
+	.byte	0
+	.uleb128 0x1a
+	.uleb128 0x2e
+	.byte	0
+	.uleb128 0x3f
+	.uleb128 0x19
+	.uleb128 0x3
+	.uleb128 0xe
+	.uleb128 0x3a
+	.uleb128 0xb
+	.uleb128 0x3b
+	.uleb128 0xb
+	.uleb128 0x39
+	.uleb128 0xb
+	.uleb128 0x27
+	.uleb128 0x19
+	.uleb128 0x49
+	.uleb128 0x13
+	.uleb128 0x3c
+	.uleb128 0x19
+	.byte	0
+	.byte	0
+	.uleb128 0x1b
+	.uleb128 0x15
+	.byte	0
+	.uleb128 0x27
+	.uleb128 0x19
+	.byte	0
+	.byte	0
+	.uleb128 0x1c
+	.uleb128 0x34
+	.byte	0
+	.uleb128 0x3
+	.uleb128 0xe
+	.uleb128 0x3a
+	.uleb128 0xb
+	.uleb128 0x3b
+	.uleb128 0xb
+	.uleb128 0x39
+	.uleb128 0xb
+	.uleb128 0x49
+	.uleb128 0x13
+	.uleb128 0x2
+	.uleb128 0x18
+	.byte	0
+	.byte	0
+	.uleb128 0x1d
+	.uleb128 0x2e
+	.byte	0
+	.uleb128 0x3f
+	.uleb128 0x19
+	.uleb128 0x3
+	.uleb128 0xe
+	.uleb128 0x3a
+	.uleb128 0xb
+	.uleb128 0x3b
+	.uleb128 0xb
+	.uleb128 0x39
+	.uleb128 0xb
+	.uleb128 0x11
+	.uleb128 0x1
+	.uleb128 0x12
+	.uleb128 0x7
+	.uleb128 0x40
+	.uleb128 0x18
+	.uleb128 0x7c
+	.uleb128 0x19
+	.byte	0
+	.byte	0
+	.byte	0
+	.section	.debug_aranges,"",@progbits
+	.long	0x2c
+	.value	0x2
+	.long	.Ldebug_info0
+	.byte	0x8
+	.byte	0
+	.value	0
+	.value	0
+	.quad	.Ltext0
+	.quad	.Letext0-.Ltext0
+	.quad	0
+	.quad	0
+	.section	.debug_line,"",@progbits
+.Ldebug_line0:
+	.section	.debug_str,"MS",@progbits,1
+.LASF26:
+	.string	"writeCharFn"
+.LASF13:
+	.string	"size_t"
+.LASF23:
+	.string	"OstCloseFn"
+.LASF32:
+	.string	"fmtRegisterI"
+.LASF20:
+	.string	"data"
+.LASF33:
+	.string	"fmtRegisterFull"
+.LASF39:
+	.string	"ostreamPrintf"
+.LASF48:
+	.string	"displayInt"
+.LASF37:
+	.string	"strPrintf"
+.LASF17:
+	.string	"CString"
+.LASF11:
+	.string	"double"
+.LASF16:
+	.string	"String"
+.LASF30:
+	.string	"PFormatFn"
+.LASF21:
+	.string	"OstWriteCharFn"
+.LASF10:
+	.string	"float"
+.LASF2:
+	.string	"unsigned char"
+.LASF34:
+	.string	"testIntEqual"
+.LASF14:
+	.string	"Bool"
+.LASF28:
+	.string	"closeFn"
+.LASF22:
+	.string	"OstWriteStringFn"
+.LASF3:
+	.string	"short unsigned int"
+.LASF27:
+	.string	"writeStringFn"
+.LASF40:
+	.string	"showTest"
+.LASF5:
+	.string	"long unsigned int"
+.LASF46:
+	.string	"testFormat1"
+.LASF45:
+	.string	"testFormat2"
+.LASF44:
+	.string	"testFormat3"
+.LASF43:
+	.string	"testFormat4"
+.LASF42:
+	.string	"testFormat5"
+.LASF41:
+	.string	"testFormat6"
+.LASF9:
+	.string	"char"
+.LASF29:
+	.string	"OStreamOps"
+.LASF35:
+	.string	"testStringEqual"
+.LASF36:
+	.string	"strlen"
+.LASF18:
+	.string	"OStreamPutFun"
+.LASF12:
+	.string	"long long int"
+.LASF47:
+	.string	"displayPtr"
+.LASF15:
+	.string	"Pointer"
+.LASF31:
+	.string	"IFormatFn"
+.LASF51:
+	.string	"formatTest"
+.LASF4:
+	.string	"unsigned int"
+.LASF49:
+	.string	"GNU C99 12.2.0 -mtune=generic -march=x86-64 -g -O0 -std=c99 -fasynchronous-unwind-tables"
+.LASF7:
+	.string	"short int"
+.LASF24:
+	.string	"ostream"
+.LASF25:
+	.string	"ostreamOps"
+.LASF8:
+	.string	"long int"
+.LASF50:
+	.string	"ostreamNewFrDevNull"
+.LASF6:
+	.string	"signed char"
+.LASF38:
+	.string	"fmtRegister"
+.LASF19:
+	.string	"OStream"
+	.section	.debug_line_str,"MS",@progbits,1
+.LASF0:
+	.string	"test/test_format.c"
+.LASF1:
+	.string	"/repo/aldor/aldor/src"
+	.ident	"GCC: (Debian 12.2.0-14+deb12u1) 12.2.0"
+	.section	.note.GNU-stack,"",@progbits
